@@ -210,14 +210,8 @@ func c03g(c *Ctx, r *Report) {
 					}
 					return cf.selOn(e, "Index", identObj(info, rs.Value))
 				}
-				for _, bs := range rs.Body.List {
-					as, ok := bs.(*ast.AssignStmt)
-					if !ok || len(as.Lhs) != 1 || len(as.Rhs) != 1 || identObj(info, as.Lhs[0]) != xObj || xObj == nil {
-						continue
-					}
-					if call, ok := unparen(as.Rhs[0]).(*ast.CallExpr); ok && builtinName(info, call) == "append" && len(call.Args) == 2 && identObj(info, call.Args[0]) == xObj && isNode(call.Args[1]) {
-						why = ""
-					}
+				if cf.collectsInto(rs, xObj, isNode) {
+					why = ""
 				}
 			}
 		}
